@@ -305,29 +305,166 @@ func isPtrToNamed(t types.Type, pkgPath, name string) bool {
 	return isNamed(p.Elem(), pkgPath, name)
 }
 
-// bracketExprAt renders the index or slice expression whose '[' is at pos.
+// bracketExprAt renders the index, slice, assertion or call expression whose bracket is at
+// pos. A local that is assigned once from a parameterless accessor chain (`name :=
+// t.ToString()`) is rendered as that chain, so that hoisting such a call into a local — or
+// inlining it again — does not change the name of a construct.
 func (w *World) bracketExprAt(pos token.Pos) string {
 	if w.brk == nil {
 		w.brk = map[token.Pos]string{}
 		for _, p := range w.Pkgs {
 			for _, f := range p.Syntax {
-				ast.Inspect(f, func(n ast.Node) bool {
-					switch x := n.(type) {
-					case *ast.IndexExpr:
-						w.brk[x.Lbrack] = types.ExprString(x)
-					case *ast.SliceExpr:
-						w.brk[x.Lbrack] = types.ExprString(x)
-					case *ast.TypeAssertExpr:
-						w.brk[x.Lparen] = types.ExprString(x)
-					case *ast.CallExpr:
-						if _, dup := w.brk[x.Lparen]; !dup {
-							w.brk[x.Lparen] = types.ExprString(x)
-						}
+				for _, d := range f.Decls {
+					fd, ok := d.(*ast.FuncDecl)
+					if !ok || fd.Body == nil {
+						continue
 					}
-					return true
-				})
+					defs := accessorLocals(p.TypesInfo, fd.Body)
+					ast.Inspect(fd.Body, func(n ast.Node) bool {
+						switch x := n.(type) {
+						case *ast.IndexExpr:
+							w.brk[x.Lbrack] = renderExpr(p.TypesInfo, x, defs, 0)
+						case *ast.SliceExpr:
+							w.brk[x.Lbrack] = renderExpr(p.TypesInfo, x, defs, 0)
+						case *ast.TypeAssertExpr:
+							w.brk[x.Lparen] = renderExpr(p.TypesInfo, x, defs, 0)
+						case *ast.CallExpr:
+							if _, dup := w.brk[x.Lparen]; !dup {
+								w.brk[x.Lparen] = renderExpr(p.TypesInfo, x, defs, 0)
+							}
+						}
+						return true
+					})
+				}
 			}
 		}
 	}
 	return w.brk[pos]
+}
+
+// accessorLocals: locals of body defined exactly once, by `x := <accessor chain>` where the
+// chain is selectors and parameterless method calls over an identifier.
+func accessorLocals(info *types.Info, body *ast.BlockStmt) map[types.Object]ast.Expr {
+	defs := map[types.Object]ast.Expr{}
+	writes := map[types.Object]int{}
+	var isChain func(e ast.Expr) bool
+	isChain = func(e ast.Expr) bool {
+		switch x := e.(type) {
+		case *ast.Ident:
+			return true
+		case *ast.SelectorExpr:
+			return isChain(x.X)
+		case *ast.CallExpr:
+			if len(x.Args) != 0 {
+				return false
+			}
+			sel, ok := x.Fun.(*ast.SelectorExpr)
+			return ok && isChain(sel.X)
+		case *ast.ParenExpr:
+			return isChain(x.X)
+		}
+		return false
+	}
+	ast.Inspect(body, func(n ast.Node) bool {
+		switch x := n.(type) {
+		case *ast.AssignStmt:
+			for i, l := range x.Lhs {
+				id, ok := l.(*ast.Ident)
+				if !ok {
+					continue
+				}
+				obj := info.ObjectOf(id)
+				if obj == nil {
+					continue
+				}
+				writes[obj]++
+				if x.Tok == token.DEFINE && len(x.Lhs) == len(x.Rhs) {
+					if _, isCall := ast.Unparen(x.Rhs[i]).(*ast.CallExpr); isCall && isChain(x.Rhs[i]) {
+						defs[obj] = x.Rhs[i]
+					}
+				}
+			}
+		case *ast.IncDecStmt:
+			if id, ok := x.X.(*ast.Ident); ok {
+				writes[info.ObjectOf(id)]++
+			}
+		case *ast.UnaryExpr:
+			if x.Op == token.AND {
+				if id, ok := x.X.(*ast.Ident); ok {
+					writes[info.ObjectOf(id)] += 2
+				}
+			}
+		case *ast.RangeStmt:
+			for _, e := range []ast.Expr{x.Key, x.Value} {
+				if id, ok := e.(*ast.Ident); ok {
+					writes[info.ObjectOf(id)] += 2
+				}
+			}
+		}
+		return true
+	})
+	for obj := range defs {
+		if writes[obj] != 1 {
+			delete(defs, obj)
+		}
+	}
+	return defs
+}
+
+func renderExpr(info *types.Info, e ast.Expr, defs map[types.Object]ast.Expr, depth int) string {
+	if depth > 6 {
+		return types.ExprString(e)
+	}
+	r := func(x ast.Expr) string { return renderExpr(info, x, defs, depth+1) }
+	switch x := e.(type) {
+	case *ast.Ident:
+		if d, ok := defs[info.ObjectOf(x)]; ok {
+			return r(d)
+		}
+		return x.Name
+	case *ast.SelectorExpr:
+		return r(x.X) + "." + x.Sel.Name
+	case *ast.ParenExpr:
+		return "(" + r(x.X) + ")"
+	case *ast.StarExpr:
+		return "*" + r(x.X)
+	case *ast.UnaryExpr:
+		return x.Op.String() + r(x.X)
+	case *ast.BinaryExpr:
+		return r(x.X) + " " + x.Op.String() + " " + r(x.Y)
+	case *ast.IndexExpr:
+		return r(x.X) + "[" + r(x.Index) + "]"
+	case *ast.SliceExpr:
+		s := r(x.X) + "["
+		if x.Low != nil {
+			s += r(x.Low)
+		}
+		s += ":"
+		if x.High != nil {
+			s += r(x.High)
+		}
+		if x.Slice3 {
+			s += ":"
+			if x.Max != nil {
+				s += r(x.Max)
+			}
+		}
+		return s + "]"
+	case *ast.TypeAssertExpr:
+		if x.Type == nil {
+			return r(x.X) + ".(type)"
+		}
+		return r(x.X) + ".(" + types.ExprString(x.Type) + ")"
+	case *ast.CallExpr:
+		var as []string
+		for _, a := range x.Args {
+			as = append(as, r(a))
+		}
+		s := r(x.Fun) + "(" + strings.Join(as, ", ")
+		if x.Ellipsis.IsValid() {
+			s += "..."
+		}
+		return s + ")"
+	}
+	return types.ExprString(e)
 }
